@@ -38,6 +38,24 @@ class TaskError(Exception):
     pass
 
 
+class TaskBaseError(BaseException):
+    """A task may raise anything: this one is not an Exception subclass."""
+
+
+def _raise_kind(k, kind):
+    """kind 0: return; 1: raise an Exception subclass; 2: raise a BaseException
+    that is not an Exception; 3: raise SystemExit."""
+    if kind == 1:
+        raise TaskError(f"task {k}")
+    if kind == 2:
+        raise TaskBaseError(f"task {k}")
+    if kind == 3:
+        raise SystemExit(f"task {k}")
+
+
+_EXC_OF_KIND = {1: TaskError, 2: TaskBaseError, 3: SystemExit}
+
+
 # ==========================================================================
 # (a) Team with memory workers
 
@@ -66,6 +84,9 @@ class _W:
         def item():
             try:
                 work()
+            except (TaskError, TaskBaseError, SystemExit) as e:
+                h.viol("task-exception-escaped-the-team",
+                       f"{type(e).__name__}({e}) raised by a task propagated out of the worker")
             finally:
                 self.out -= 1
         self.mw.do(item)
@@ -156,8 +177,7 @@ class _TeamH:
     def mk_task(self, k, raises):
         def task():
             self.runs[k] += 1
-            if raises:
-                raise TaskError(f"task {k}")
+            _raise_kind(k, int(raises))
         return task
 
     def coord_empty(self):
@@ -331,6 +351,8 @@ def _run_team(ctx, case, h):
     for k in h.cls:
         ctx.count("team: " + k)
     ctx.count("team: histories")
+    if any(h.raises[k] and h.runs[k] for k in h.accepted) and any(o[0] == "do" and int(o[1]) >= 2 for o in case["ops"]):
+        ctx.count("team: a task raising a non-Exception BaseException ran")
     waited = h.refusals > 0 and any(h.runs[k] for k in h.accepted if h.refusals > h.refusals_at_submit[k])
     if waited:
         ctx.count("team: task ran after waiting for a refused worker")
@@ -342,7 +364,7 @@ def _run_team(ctx, case, h):
 
 
 _TEAM_ALPHABET = [
-    ["do", 0], ["do", 1], ["grow", 1], ["shrink", 1], ["shrink", None], ["quit"],
+    ["do", 0], ["do", 2], ["grow", 1], ["shrink", 1], ["shrink", None], ["quit"],
     ["c"], ["w", 0], ["w", 1], ["lim", 1], ["lim", 2],
 ]
 
@@ -358,7 +380,7 @@ def _team_enum_shard(ctx, arg):
     enumerate_run(ctx, _team_small(arg), run_case)
 
 
-_TEAM_W = ([["do", 0]] * 10 + [["do", 1]] * 4 + [["grow", 1]] * 2 + [["grow", 2]] + [["shrink", 1]] * 2
+_TEAM_W = ([["do", 0]] * 9 + [["do", 1]] * 2 + [["do", 2]] * 2 + [["do", 3]] + [["grow", 1]] * 2 + [["grow", 2]] + [["shrink", 1]] * 2
            + [["shrink", None]] + [["quit"]] + [["c"]] * 14 + [["lim", None], ["lim", 0], ["lim", 1], ["lim", 2], ["lim", 3]])
 
 
@@ -427,8 +449,7 @@ def run_pool(ctx, case):
                     time.sleep(0.001)
                 elif dur == 3:
                     time.sleep(0.005)
-                if raises:
-                    raise TaskError(f"task {k}")
+                _raise_kind(k, int(raises))
                 return ("value", k)
             finally:
                 with lock:
@@ -458,7 +479,7 @@ def run_pool(ctx, case):
                     started = ever_started = True
             elif o[0] in ("cit", "cb"):
                 k = len(spec)
-                spec[k] = (bool(o[1]), o[0] == "cb", not stopped)
+                spec[k] = (int(o[1]), o[0] == "cb", not stopped)
                 if o[0] == "cb":
                     pool.callInThreadWithCallback(mk_cb(k), mk(k, o[1], o[2]))
                 else:
@@ -516,7 +537,7 @@ def run_pool(ctx, case):
                     ctx.violation("pool-onresult-count", case, f"task {k}: ran {n} times, onResult called {len(res)} times")
                 for ok, r in res:
                     if raises:
-                        good = ok is False and isinstance(r, Failure) and isinstance(r.value, TaskError) \
+                        good = ok is False and isinstance(r, Failure) and type(r.value) is _EXC_OF_KIND[raises] \
                             and str(r.value) == f"task {k}"
                     else:
                         good = ok is True and r == ("value", k)
@@ -538,6 +559,10 @@ def run_pool(ctx, case):
     ctx.count("pool: threads used", nthreads)
     if not ever_started:
         ctx.count("pool: never started")
+    if case["ops"] and case["ops"][-1] == ["start"] and spec:
+        ctx.count("pool: everything submitted before a late start()")
+        if pool.min == 0:
+            ctx.count("pool: ... with min=0 (only start()'s backlog growth can run the tasks)")
     if st_["peak"] >= 2:
         ctx.count("pool: >=2 tasks ran concurrently")
     if nstartw[0]:
@@ -550,6 +575,10 @@ def run_pool(ctx, case):
         ctx.count("pool: adjustPoolsize used")
     if any(not b for (_, _, b) in spec.values()):
         ctx.count("pool: submission after stop")
+    nb = sum(1 for (r, w, b) in spec.values() if b and r >= 2)
+    if nb:
+        ctx.count("pool: tasks raising a non-Exception BaseException", nb)
+        ctx.count("pool: ... of these with onResult", sum(1 for (r, w, b) in spec.values() if b and r >= 2 and w))
     if nthreads >= 2 and any(r for (r, _, b) in spec.values() if b) and any(w for (_, w, b) in spec.values() if b):
         ctx.nontrivial(dumps(case))
         ctx.count("pool: nontrivial")
@@ -557,32 +586,35 @@ def run_pool(ctx, case):
             ctx.sample(case)
 
 
-_POOL_W = ([["cit", 0, 0]] * 5 + [["cit", 0, 2]] * 3 + [["cit", 1, 0]] * 3 + [["cit", 1, 1]]
+_POOL_W = ([["cit", 2, 0]] * 2 + [["cb", 2, 0]] * 3 + [["cb", 2, 2], ["cb", 3, 0]] + [["cit", 0, 0]] * 5 + [["cit", 0, 2]] * 3 + [["cit", 1, 0]] * 3 + [["cit", 1, 1]]
            + [["cb", 0, 0]] * 5 + [["cb", 0, 2]] * 3 + [["cb", 0, 3]] + [["cb", 1, 0]] * 3 + [["cb", 1, 2]] * 2
            + [["start"]] * 3 + [["stop"]] + [["startw"]] * 10 + [["stopw"]] * 3)
+
+
+_POOL_N = len(_POOL_W) + 7
 
 
 def _pool_histories():
     def dec(t):
         mm, early, xs = t
-        lo, hi = mm % 4, 1 + (mm // 4) % 5
+        lo, hi = [0, 0, 1, 2][mm % 4], 1 + (mm // 4) % 5
         lo = min(lo, hi)
         ops = [["start"]] if early else []
         for x in xs:
-            k = x % 52
+            k = x % _POOL_N
             if k < len(_POOL_W):
                 ops.append(list(_POOL_W[k]))
             else:
-                a, b = (x // 52) % 4, 1 + (x // 208) % 6
+                a, b = (x // _POOL_N) % 4, 1 + (x // (4 * _POOL_N)) % 6
                 ops.append(["adjust", min(a, b), b])
         if not early:
             # everything submitted to a pool that is started only afterwards
             ops = [o for o in ops if o[0] not in ("start", "stop")] + [["start"]]
         return dict(layer="pool", min=lo, max=hi, ops=ops)
-    big = st.integers(0, 52 * 24 - 1)
+    big = st.integers(0, _POOL_N * 24 - 1)
     ops = st.one_of(st.lists(big, max_size=10), st.lists(big, min_size=8, max_size=25),
                     st.lists(big, min_size=20, max_size=40))
-    return st.tuples(st.integers(0, 19), st.integers(0, 3), ops).map(dec)
+    return st.tuples(st.integers(0, 19), st.integers(0, 2), ops).map(dec)
 
 
 # ==========================================================================
